@@ -102,6 +102,13 @@ int (*env_alloc_hook)(long k);
 #define LIVE_N (1u << LIVE_BITS)
 static void *live_tab[LIVE_N];
 static void *live_site[LIVE_N];
+static long  live_seq[LIVE_N];   /* allocation order: the reported site is that of the OLDEST live block (independent of heap addresses) */
+static long  live_seq_ctr;
+/* MXV_SITE_BT=1 (debugging aid for replays): keep a 10-frame backtrace per live block; env_live_dump() prints them */
+#include <execinfo.h>
+#define BT_N 10
+static void *(*live_bt)[BT_N];
+static int bt_on = -1;
 static __thread void *cur_site;
 static long live_cnt;
 #define TOMB ((void *) 1)
@@ -121,6 +128,23 @@ static void live_add(void *p)
         {
             live_tab[i] = p;
             live_site[i] = cur_site;
+            live_seq[i] = ++live_seq_ctr;
+            if (bt_on < 0)
+            {
+                bt_on = getenv("MXV_SITE_BT") != NULL;
+                if (bt_on)
+                {
+                    live_bt = __real_calloc(LIVE_N, sizeof(*live_bt));
+                }
+            }
+            if (bt_on && live_bt)
+            {
+                int was = tracking;
+                tracking = 0;
+                memset(live_bt[i], 0, sizeof(live_bt[i]));
+                backtrace(live_bt[i], BT_N);
+                tracking = was;
+            }
             live_cnt++;
             return;
         }
@@ -177,15 +201,59 @@ static int should_fail(void)
     return fail;
 }
 
-int env_live_sites(void **sites, int max)
+void env_live_dump(void)
 {
     unsigned i;
-    int n = 0;
-    for (i = 0; i < LIVE_N && n < max; i++)
+    int k;
+    for (i = 0; i < LIVE_N; i++)
+    {
+        if (live_tab[i] != NULL && live_tab[i] != TOMB && live_bt)
+        {
+            fprintf(stderr, "LIVE block %p allocated at:", live_tab[i]);
+            for (k = 0; k < BT_N && live_bt[i][k]; k++)
+            {
+                fprintf(stderr, " %p", live_bt[i][k]);
+            }
+            fprintf(stderr, "\n");
+        }
+    }
+}
+
+int env_live_sites(void **sites, int max)
+{
+    /* sites of the live blocks in allocation order (oldest first) */
+    unsigned i;
+    int n = 0, k;
+    long seqs[16];
+    if (max > 16)
+    {
+        max = 16;
+    }
+    for (i = 0; i < LIVE_N; i++)
     {
         if (live_tab[i] != NULL && live_tab[i] != TOMB)
         {
-            sites[n++] = live_site[i];
+            /* insertion into the sorted prefix */
+            k = n < max ? n : max - 1;
+            if (n >= max && live_seq[i] > seqs[max - 1])
+            {
+                continue;
+            }
+            while (k > 0 && seqs[k - 1] > live_seq[i])
+            {
+                if (k < max)
+                {
+                    seqs[k] = seqs[k - 1];
+                    sites[k] = sites[k - 1];
+                }
+                k--;
+            }
+            seqs[k] = live_seq[i];
+            sites[k] = live_site[i];
+            if (n < max)
+            {
+                n++;
+            }
         }
     }
     return n;
